@@ -12,6 +12,16 @@
  *              write/read calls of a transfer are shortened/interrupted as the schedule says (the
  *              bytes really travel through the kernel), later calls go through unchanged.
  *
+ *
+ * Descriptor NUMBERS are an input class of their own: an optional first operation `fds <n>` makes n the
+ * lowest descriptor number that is free when the scenario starts.  n = 0, 1, 2: the standard streams
+ * from n on are closed around the scenario (a daemon without stdin/stdout/stderr) - the harness's own
+ * stdout, the saved standard streams, the sanitizer's report descriptor, the case file and /dev/null
+ * all live on descriptors >= HI, so nothing of the harness is in the way; n >= 3: everything below n
+ * is taken (sim: the descriptor-table oracle hands out the lowest free number >= n; real: the numbers
+ * below n are really occupied by duplicates of /dev/null).  Without `fds` the lowest free number is 3.
+ * The census compares the SET of open descriptors, 0-2 included, with the set before the scenario.
+ *
  * Output format: see driver/c19_main.ml (must match exactly). */
 #define main lv_main
 #define LV_MAXTOK 8192
@@ -26,6 +36,7 @@
 #include <sys/un.h>
 #include <sys/select.h>
 #include <sys/time.h>
+#include <sys/resource.h>
 
 ssize_t __real_read(int, void *, size_t);
 ssize_t __real_write(int, const void *, size_t);
@@ -56,6 +67,22 @@ static unsigned long g_acc_len; static unsigned int g_acc_hash;
 static long g_nsel; static struct timeval g_lastsel;
 static long g_io_calls;
 static char g_realfail[128];
+#define HI 4000                    /* the harness's own descriptors live at HI .. HI+5 */
+static int g_devnull = -1, g_save[3] = { -1, -1, -1 };
+static int g_min;                  /* sim: socket/accept/dup hand out the lowest free number >= g_min */
+static int g_fill[HI + 8]; static int g_nfill;
+
+/* sim mode with `fds n`, n > 3: the descriptor table hands out the lowest free number >= n */
+static int place(int fd)
+{
+    int n, e;
+    if (fd < 0 || g_min <= 3) return fd;
+    n = fcntl(fd, F_DUPFD, g_min);
+    e = errno;
+    __real_close(fd);
+    errno = e;
+    return n;
+}
 
 static void note_realfail(const char *what)
 {
@@ -77,7 +104,7 @@ static void runaway(void)
 {
     if (++g_io_calls > 300000) {
         static const char msg[] = "C19 harness: runaway I/O loop (more than 300000 calls in one operation)\n";
-        __real_write(2, msg, sizeof(msg) - 1);
+        __real_write(g_save[2] >= 0 ? g_save[2] : 2, msg, sizeof(msg) - 1);
         abort();
     }
 }
@@ -161,7 +188,7 @@ int __wrap_accept(int fd, struct sockaddr *addr, socklen_t *len)
     if (g_again_left > 0) { g_again_left--; errno = EAGAIN; return -1; }
     if (!g_acc_ok) { errno = ECONNABORTED; return -1; }
     if (g_mode == M_SIM) {
-        int nfd = __real_socket(AF_UNIX, SOCK_STREAM, 0);
+        int nfd = place(__real_socket(AF_UNIX, SOCK_STREAM, 0));
         if (nfd >= 0 && addr && len && *len >= sizeof(sa_family_t)) {
             /* what Linux reports for an unnamed peer: the family only */
             addr->sa_family = AF_UNIX;
@@ -193,6 +220,7 @@ int __wrap_dup(int fd)
 {
     if (g_mode == M_OFF) return __real_dup(fd);
     if (!g_dup_ok) { errno = EMFILE; return -1; }
+    if (g_mode == M_SIM && g_min > 3) return fcntl(fd, F_DUPFD, g_min);
     return __real_dup(fd);
 }
 
@@ -203,6 +231,7 @@ int __wrap_socket(int d, int t, int p)
     {
         int r = __real_socket(d, t, p);
         if (r < 0) note_realfail("socket");
+        if (g_mode == M_SIM) r = place(r);
         return r;
     }
 }
@@ -280,7 +309,27 @@ static int census(unsigned char *set)
 #define MAXOBJ 64
 static spif_socket_t g_obj[MAXOBJ];
 static int g_nobj;
-static int g_basecount;
+
+/* descriptors open now but not before the scenario / open before the scenario but not now */
+static int diff_sets(int *missing)
+{
+    int i, extra = 0, miss = 0;
+    for (i = 0; i < MAXFD; i++) {
+        if (g_now[i] && !g_base[i]) extra++;
+        if (g_base[i] && !g_now[i]) miss++;
+    }
+    if (missing) *missing = miss;
+    return extra;
+}
+static void list_set(const char *tag, int want_now)
+{
+    int i, first = 1;
+    printf("%s", tag);
+    for (i = 0; i < MAXFD; i++) {
+        if (want_now ? (g_now[i] && !g_base[i]) : (g_base[i] && !g_now[i])) { printf("%s%d", first ? "[" : ",", i); first = 0; }
+    }
+    printf("]");
+}
 
 static void payload_fill(unsigned char *b, long len, long seed)
 {
@@ -294,11 +343,15 @@ static int parse_spec(const char *s, long *len, long *seed)
 
 static void state_suffix(void)
 {
-    int n = census(g_now), i, dang = 0;
+    int i, dang = 0, extra, miss = 0;
+    census(g_now);
     for (i = 0; i < g_nobj; i++) {
         if (g_obj[i] && g_obj[i]->fd >= 0 && !(g_obj[i]->fd < MAXFD && g_now[g_obj[i]->fd])) dang++;
     }
-    printf("+%d!%d ", n - g_basecount, dang);
+    extra = diff_sets(&miss);
+    printf("+%d!%d", extra, dang);
+    if (miss) printf("^%d", miss);          /* a descriptor that was open before the scenario is gone */
+    printf(" ");
 }
 
 static void parse_ws(char *s)
@@ -462,23 +515,56 @@ static void run_op(int mode, int n, char **t, const char *path)
     }
 }
 
+/* the first case: the descriptors that kept lv_main's fopen() away from the low numbers are released */
+static void release_fill(void)
+{
+    while (g_nfill > 0) __real_close(g_fill[--g_nfill]);
+}
+
 static void run_case(int ntok, char **tok)
 {
-    int mode, k, start, i;
+    int mode, k, start, i, fdbase = 3, first = 1, extra, miss = 0;
     char path[600];
 
+    release_fill();
     if (ntok < 2) { printf("HARNESS-ERROR:empty"); return; }
     mode = !strcmp(tok[0], "sim") ? M_SIM : M_REAL;
     snprintf(path, sizeof(path), "%s/s%ld_%ld", g_dir, (long) getpid(), g_caseno++);
     unlink(path);
     g_nobj = 0;
     g_realfail[0] = 0;
+    g_min = 0;
     alarm(60);
-    g_basecount = census(g_base);
+    /* ---- the descriptor numbers of this scenario ---- */
+    if (!strcmp(tok[1], "fds")) {
+        if (ntok < 3 || (ntok > 3 && strcmp(tok[3], ";"))) { printf("HARNESS-ERROR:fds"); return; }
+        fdbase = atoi(tok[2]);
+        if (fdbase < 0 || fdbase > HI - 2 * MAXOBJ - 4) { printf("HARNESS-ERROR:fds-range"); return; }
+        for (i = fdbase; i <= 2; i++) __real_close(i);
+        if (fdbase > 3) {
+            if (mode == M_SIM) {
+                g_min = fdbase;
+            } else {
+                for (;;) {
+                    int d = __real_dup(g_devnull);
+                    if (d < 0) { printf("HARNESS-ERROR:occupy:%d", errno); break; }
+                    if (d >= fdbase) { __real_close(d); break; }
+                    g_fill[g_nfill++] = d;
+                }
+            }
+        }
+    }
+    census(g_base);
     for (start = 1, k = 1; k <= ntok; k++) {
         if (k == ntok || !strcmp(tok[k], ";")) {
             if (k > start) {
-                run_op(mode, k - start, tok + start, path);
+                if (!strcmp(tok[start], "fds")) {
+                    if (!first) { printf("HARNESS-ERROR:fds-not-first"); break; }
+                    printf("f");
+                } else {
+                    run_op(mode, k - start, tok + start, path);
+                }
+                first = 0;
                 state_suffix();
             }
             start = k + 1;
@@ -490,23 +576,44 @@ static void run_case(int ntok, char **tok)
     for (i = 0; i < g_nobj; i++) {
         if (g_obj[i]) {
             int fd = g_obj[i]->fd;
-            printf(" %d:%s~%04x", i, fd < 0 ? "-" : ((fd < MAXFD && g_now[fd]) ? "o" : "x"), (unsigned) g_obj[i]->flags);
+            printf(" %d:%s~%04x@%d", i, fd < 0 ? "-" : ((fd < MAXFD && g_now[fd]) ? "o" : "x"), (unsigned) g_obj[i]->flags, fd);
         }
     }
     for (i = 0; i < g_nobj; i++) {
         if (g_obj[i]) { spif_socket_del(g_obj[i]); g_obj[i] = NULL; }
     }
-    printf(" | leak=%d%s", census(g_now) - g_basecount, g_realfail);
+    /* the census is exact: the SET of open descriptors (0, 1 and 2 included) must be the one before the scenario */
+    census(g_now);
+    extra = diff_sets(&miss);
+    printf(" | leak=%d", extra);
+    if (extra) list_set("", 1);
+    if (miss) { printf(" stolen=%d", miss); list_set("", 0); }
+    printf("%s", g_realfail);
     /* descriptors the library lost are closed here so that one case cannot starve the next */
     for (i = 0; i < MAXFD; i++) if (g_now[i] && !g_base[i]) __real_close(i);
+    /* the standard streams come back, the occupied numbers are released */
+    for (i = fdbase; i <= 2; i++) dup2(g_save[i], i);
+    release_fill();
+    g_min = 0;
     unlink(path);
     alarm(0);
+}
+
+void __sanitizer_set_report_fd(void *fd) __attribute__((weak));
+
+static int move_high(int fd, int to)
+{
+    int n = fcntl(fd, F_DUPFD, to);
+    if (n != to) { static const char m[] = "C19 harness: cannot place a descriptor at HI\n"; __real_write(2, m, sizeof(m) - 1); _exit(3); }
+    return n;
 }
 
 int main(int argc, char **argv)
 {
     char *slash;
     const char *env = getenv("C19_DIR");
+    struct rlimit rl;
+    int i, d;
     if (env) {
         snprintf(g_dir, sizeof(g_dir), "%s", env);
     } else if (argc > 1) {
@@ -515,8 +622,30 @@ int main(int argc, char **argv)
         if (slash) *slash = 0; else strcpy(g_dir, ".");
     }
     signal(SIGPIPE, SIG_IGN);
-    /* the library reports every injected failure on stderr; keep the stream quiet but leave
-     * descriptor 2 to the sanitizer */
-    stderr = fopen("/dev/null", "w");
+    if (getrlimit(RLIMIT_NOFILE, &rl) == 0 && rl.rlim_cur < 2 * MAXFD) {
+        rl.rlim_cur = (rl.rlim_max == RLIM_INFINITY || rl.rlim_max > 2 * MAXFD) ? 2 * MAXFD : rl.rlim_max;
+        setrlimit(RLIMIT_NOFILE, &rl);
+    }
+    /* Everything the harness itself needs moves to descriptors >= HI, so that a scenario may be handed any
+     * low number - 0, 1 and 2 included: /dev/null, the saved standard streams, stdout (the FILE the results
+     * are printed to), the sanitizer's report descriptor, the quiet stderr FILE and (below) the case file. */
+    d = open("/dev/null", O_RDWR);
+    if (d < 0) { perror("C19 harness: /dev/null"); return 3; }
+    for (i = 0; i <= 2; i++) if (fcntl(i, F_GETFD) == -1) dup2(d, i);      /* an ordinary process has all three */
+    if (d <= 2) d = open("/dev/null", O_RDWR);
+    g_devnull = move_high(d, HI);
+    __real_close(d);
+    for (i = 0; i <= 2; i++) g_save[i] = move_high(i, HI + 1 + i);
+    stdout = fdopen(g_save[1], "w");
+    if (__sanitizer_set_report_fd) __sanitizer_set_report_fd((void *) (long) g_save[2]);
+    /* the library reports every injected failure on stderr; keep the stream quiet */
+    d = move_high(g_devnull, HI + 4);
+    stderr = fdopen(d, "w");
+    /* lv_main() opens the case file with fopen(): keep it away from the low numbers as well */
+    for (;;) {
+        d = dup(g_devnull);
+        if (d < 0 || d > HI + 4) { if (d >= 0) __real_close(d); break; }
+        g_fill[g_nfill++] = d;
+    }
     return lv_main(argc, argv);
 }
